@@ -411,8 +411,16 @@ class ObjModels:
 					ky, kx = key_of(y.fields[0]), key_of(x.fields[0])
 					for s3, eq in self.keys.split(s2, "eq", ky, kx):
 						if eq:
-							# equal keys: by value tag
-							if y.fields[1] <= x.fields[1]:
+							# equal keys: by value (tags / booleans; containers: kept in place — the order
+							# among members of equal keys with container values is not modelled)
+							vy, vx = y.fields[1], x.fields[1]
+							if isinstance(vy, Agg) or isinstance(vx, Agg):
+								if isinstance(vy, Agg) and isinstance(vx, Agg) and vy.variant == "Boolean" and vx.variant == "Boolean":
+									vy, vx = vy.fields[0], vx.fields[0]
+								else:
+									s3.aux["tie_unmodelled"] = True
+									vy, vx = 0, 0
+							if vy <= vx:
 								ins(s3, done[:pos] + [x] + done[pos:], rest[1:])
 							else:
 								place(s3, pos - 1)
@@ -431,6 +439,16 @@ class ObjModels:
 				self.wr(ip, s, a[0], ("vec", items))
 				res.append((s, UNIT))
 			return res
+
+		def value_canon(ip, st, a):
+			v = deref_val(ip, st, a[0])
+			if isinstance(v, Agg) and v.ty == "Value":
+				# real values (nested mode): the crate's MIR
+				fn = prog.resolve("Value::@canonicalize_with", None, [])
+				if fn is None:
+					raise MirError("Value::canonicalize_with not found in the MIR dump")
+				return [(st, CallFn(fn, [a[0], a[1]]))]
+			return [(st, UNIT)]  # scalar tags of the flat check
 
 		def iter_last(ip, st, a):
 			fn = prog.synthetic_last(self.rd(ip, st, a[0]))
@@ -997,7 +1015,10 @@ class ObjModels:
 			"Object::iter_mut": one(obj_iter_mut),
 			"<object::IterMut as IntoIterator>::into_iter": one(lambda ip, st, a: a[0]),
 			"<object::IterMut as Iterator>::next": one(iter_mut_next),
-			"Value::canonicalize_with": one(lambda ip, st, a: UNIT),
+			"Value::canonicalize_with": value_canon,
+			"<&mut Vec as IntoIterator>::into_iter": one(slice_iter),
+			"<std::slice::IterMut as Iterator>::next": one(slice_iter_next),
+			"<core::slice::IterMut as Iterator>::next": one(slice_iter_next),
 			"ryu_js::Buffer::new": one(lambda ip, st, a: ("buffer",)),
 			"core::slice::windows": one(windows),
 			"std::slice::windows": one(windows),
@@ -1159,6 +1180,7 @@ class ObjProgram:
 			"<IterMapped as Iterator>::next": r"^object::<impl at src/object/mod\.rs:[0-9: ]+>::next\(_1: &mut (object::)?IterMapped<",
 			"Value::kind": r"^<impl at src/lib\.rs:[0-9: ]+>::kind\(_1: &Value\) -> Kind",
 			"Value::@unordered_eq": r"^<impl at src/lib\.rs:[0-9: ]+>::unordered_eq\(_1: &Value, _2: &Value\)",
+			"Value::@canonicalize_with": r"^<impl at src/lib\.rs:[0-9: ]+>::canonicalize_with\(_1: &mut Value, _2: &mut ryu_js::Buffer\)",
 			"Vec::@unordered_eq": r"^unordered::<impl at src/unordered\.rs:[0-9: ]+>::unordered_eq\(_1: &Vec<T>, _2: &Vec<T>\)",
 			"<Object as unordered::UnorderedPartialEq>::unordered_eq": r"^object::<impl at src/object/mod\.rs:[0-9: ]+>::unordered_eq\(_1: &Object, _2: &Object\)",
 			"Value::get_fragment": r"^<impl at src/lib\.rs:[0-9: ]+>::get_fragment\(_1: &Value, _2: usize\)",
@@ -1654,82 +1676,8 @@ class Explorer:
 		self.pairs = 0
 		EMPTY = Agg("Object", None, (("vec", ()), ("imap", ())))
 
-		def build(st, shape):
-			"""[(state, Agg value, model)]; model: ("s", b) | ("arr", [models]) | ("obj", [(keyvar, model)])"""
-			if shape in ("t", "f"):
-				return [(st, Agg("Value", "Boolean", (shape == "t",)), ("s", shape))]
-			if shape[0] == "arr":
-				outs = [(st, [], [])]
-				for c in shape[1]:
-					nxt = []
-					for s_, vals, ms in outs:
-						for s2, v, m_ in build(s_, c):
-							nxt.append((s2, vals + [v], ms + [m_]))
-					outs = nxt
-				return [(s_, Agg("Value", "Array", (("vec", tuple(vals)),)), ("arr", ms)) for s_, vals, ms in outs]
-			outs = [(st, EMPTY, [])]
-			for c in shape[1]:
-				nxt = []
-				for s_, ob, ms in outs:
-					for s2, v, m_ in build(s_, c):
-						k = s2.aux["nk"]
-						s2.aux["nk"] = k + 1
-						while len(self.keys.vars) <= k:
-							self.keys.fresh()
-						slot = 3000 + s2.aux.get("slots", 0)
-						s2.aux["slots"] = s2.aux.get("slots", 0) + 1
-						s2.frames[0].locals[slot] = ob
-						for s3, _ in self.call(s2, prog.by["push"], [Ref(0, slot, ()), ("key", k), v]):
-							nxt.append((s3, s3.frames[0].locals[slot], ms + [(k, m_)]))
-				outs = nxt
-			return [(s_, Agg("Value", "Object", (ob,)), ("obj", ms)) for s_, ob, ms in outs]
-
-		def ueq(st, a, b):
-			"""[(state, bool)] — the recursive definition"""
-			if a[0] != b[0]:
-				return [(st, False)]
-			if a[0] == "s":
-				return [(st, a[1] == b[1])]
-			if len(a[1]) != len(b[1]):
-				return [(st, False)]
-			if a[0] == "arr":
-				outs = [(st, True)]
-				for x, y in zip(a[1], b[1]):
-					nxt = []
-					for s_, ok_ in outs:
-						if not ok_:
-							nxt.append((s_, False))
-						else:
-							nxt += ueq(s_, x, y)
-					outs = nxt
-				return outs
-			# objects: greedy one-to-one matching (sound for an equivalence)
-			out = []
-
-			def match(s_, i, free):
-				if i >= len(a[1]):
-					out.append((s_, True))
-					return
-
-				def search(s2, cand):
-					if not cand:
-						out.append((s2, False))
-						return
-					j = cand[0]
-					for s3, eq in self.keys.split(s2, "eq", a[1][i][0], b[1][j][0]):
-						if not eq:
-							search(s3, cand[1:])
-							continue
-						for s4, same in ueq(s3, a[1][i][1], b[1][j][1]):
-							if same:
-								match(s4, i + 1, [x for x in free if x != j])
-							else:
-								search(s4, cand[1:])
-
-				search(s_, free)
-
-			match(st, 0, list(range(len(b[1]))))
-			return out
+		build = self.nested_build
+		ueq = self.nested_ueq
 
 		for X, Y in nested_pairs(level):
 			st = State()
@@ -1754,6 +1702,84 @@ class Explorer:
 			if budget and time.time() - t0 > budget:
 				self.timed_out = True
 				return
+
+	def nested_build(self, st, shape):
+		"""[(state, Agg value, model)]; model: ("s", b) | ("arr", [models]) | ("obj", [(keyvar, model)])"""
+		if shape in ("t", "f"):
+			return [(st, Agg("Value", "Boolean", (shape == "t",)), ("s", shape))]
+		if shape[0] == "arr":
+			outs = [(st, [], [])]
+			for c in shape[1]:
+				nxt = []
+				for s_, vals, ms in outs:
+					for s2, v, m_ in self.nested_build(s_, c):
+						nxt.append((s2, vals + [v], ms + [m_]))
+				outs = nxt
+			return [(s_, Agg("Value", "Array", (("vec", tuple(vals)),)), ("arr", ms)) for s_, vals, ms in outs]
+		outs = [(st, Agg("Object", None, (("vec", ()), ("imap", ()))), [])]
+		for c in shape[1]:
+			nxt = []
+			for s_, ob, ms in outs:
+				for s2, v, m_ in self.nested_build(s_, c):
+					k = s2.aux["nk"]
+					s2.aux["nk"] = k + 1
+					while len(self.keys.vars) <= k:
+						self.keys.fresh()
+					slot = 3000 + s2.aux.get("slots", 0)
+					s2.aux["slots"] = s2.aux.get("slots", 0) + 1
+					s2.frames[0].locals[slot] = ob
+					for s3, _ in self.call(s2, self.prog.by["push"], [Ref(0, slot, ()), ("key", k), v]):
+						nxt.append((s3, s3.frames[0].locals[slot], ms + [(k, m_)]))
+			outs = nxt
+		return [(s_, Agg("Value", "Object", (ob,)), ("obj", ms)) for s_, ob, ms in outs]
+
+	def nested_ueq(self, st, a, b):
+		"""[(state, bool)] — the recursive definition"""
+		if a[0] != b[0]:
+			return [(st, False)]
+		if a[0] == "s":
+			return [(st, a[1] == b[1])]
+		if len(a[1]) != len(b[1]):
+			return [(st, False)]
+		if a[0] == "arr":
+			outs = [(st, True)]
+			for x, y in zip(a[1], b[1]):
+				nxt = []
+				for s_, ok_ in outs:
+					if not ok_:
+						nxt.append((s_, False))
+					else:
+						nxt += self.nested_ueq(s_, x, y)
+				outs = nxt
+			return outs
+		# objects: greedy one-to-one matching (sound for an equivalence)
+		out = []
+
+		def match(s_, i, free):
+			if i >= len(a[1]):
+				out.append((s_, True))
+				return
+
+			def search(s2, cand):
+				if not cand:
+					out.append((s2, False))
+					return
+				j = cand[0]
+				for s3, eq in self.keys.split(s2, "eq", a[1][i][0], b[1][j][0]):
+					if not eq:
+						search(s3, cand[1:])
+						continue
+					for s4, same in self.nested_ueq(s3, a[1][i][1], b[1][j][1]):
+						if same:
+							match(s4, i + 1, [x for x in free if x != j])
+						else:
+							search(s4, cand[1:])
+
+			search(s_, free)
+
+		match(st, 0, list(range(len(b[1]))))
+		return out
+
 
 	def multiset_eq(self, st, A, B):
 		"""[(state, bool)]: B is a permutation of A (keys compared through the solver)"""
@@ -2119,6 +2145,145 @@ class Explorer:
 									place(s5, i + 1)
 
 						place(s3, 0)
+			if budget and time.time() - t0 > budget:
+				self.timed_out = True
+				return
+
+	def explore_canon_nested(self, level, budget):
+		"""C09/C10 at depth: `Value::canonicalize_with` and `Object::canonicalize_with` from MIR,
+		recursively, on nested values whose every key (at every depth) is one SYMBOLIC character, so
+		that the solver decides both the equalities and the UTF-16 order of any two keys. After the
+		call: (1) the value is unordered-equal to the original (recursive definition, same key
+		decisions): nothing lost, added or moved between objects; (2) in EVERY object at EVERY depth the
+		members are in non-decreasing UTF-16 order of their keys (boolean values break ties); (3) every
+		object's index is canonical for its entries; (4) a second call changes nothing."""
+		t0 = time.time()
+		prog = self.prog
+		fn = prog.resolve("Value::@canonicalize_with", None, [])
+		if fn is None:
+			raise MirError("Value::canonicalize_with not found in the MIR dump")
+		self.ip.enums["Value"] = enum_variants(self.repo, "src/lib.rs", "Value")
+		self.pairs = 0
+
+		def model_of(v):
+			if v.variant == "Boolean":
+				return ("s", "t" if v.fields[0] else "f")
+			if v.variant == "Array":
+				return ("arr", [model_of(i) for i in v.fields[0][1]])
+			return ("obj", [(key_of(e.fields[0]), model_of(e.fields[1])) for e in v.fields[0].fields[0][1]])
+
+		def objects_of(v, path="$"):
+			"""every object Agg in the value, with a path for messages"""
+			if v.variant == "Array":
+				for i, c in enumerate(v.fields[0][1]):
+					yield from objects_of(c, "%s[%d]" % (path, i))
+			elif v.variant == "Object":
+				yield path, v.fields[0]
+				for i, e in enumerate(v.fields[0].fields[0][1]):
+					yield from objects_of(e.fields[1], "%s.%d" % (path, i))
+
+		def sorted_ok(st, ob):
+			"""[(state, bad description or None)]"""
+			ents = ob.fields[0][1]
+			out = []
+			work = [(st, 0)]
+			while work:
+				s, j = work.pop()
+				if j + 1 >= len(ents):
+					out.append((s, None))
+					continue
+				ka, kb = key_of(ents[j].fields[0]), key_of(ents[j + 1].fields[0])
+				va, vb = ents[j].fields[1], ents[j + 1].fields[1]
+				for s2, eq in self.keys.split(s, "eq", ka, kb):
+					if eq:
+						if va.variant == "Boolean" and vb.variant == "Boolean" and va.fields[0] and not vb.fields[0]:
+							out.append((s2, "members %d and %d have equal keys and values true, false" % (j, j + 1)))
+						else:
+							work.append((s2, j + 1))
+						continue
+					for s3, lt in self.keys.split(s2, "lt16", ka, kb):
+						if lt:
+							work.append((s3, j + 1))
+						else:
+							out.append((s3, "members %d and %d are out of UTF-16 order" % (j, j + 1)))
+			return out
+
+		def index_ok(st, ob):
+			"""[(state, bad or None)]: the buckets are exactly the key classes, positions ascending"""
+			ents = ob.fields[0][1]
+			keys_ = [key_of(e.fields[0]) for e in ents]
+			buckets = ob.fields[1][1]
+			seen = set()
+			for rep, other in buckets:
+				ps = (rep,) + tuple(other)
+				if any(p_ >= len(ents) for p_ in ps) or list(ps) != sorted(set(ps)) or seen & set(ps):
+					return [(st, "index bucket %r invalid for %d entries" % (ps, len(ents)))]
+				seen |= set(ps)
+			if seen != set(range(len(ents))):
+				return [(st, "index does not cover positions %r" % (sorted(set(range(len(ents))) - seen),))]
+			out = []
+			work = [(st, list(buckets))]
+			while work:
+				s, bs = work.pop()
+				if not bs:
+					out.append((s, None))
+					continue
+				(rep, other), rest = bs[0], bs[1:]
+				# positions of the representative's key among the entries
+				w2 = [(s, 0, [])]
+				while w2:
+					s2, j, acc = w2.pop()
+					if j >= len(keys_):
+						if acc != [rep] + list(other):
+							out.append((s2, "bucket %r, positions of its key %r" % ((rep,) + tuple(other), acc)))
+						else:
+							work.append((s2, rest))
+						continue
+					for s3, eq in self.keys.split(s2, "eq", keys_[j], keys_[rep]):
+						w2.append((s3, j + 1, acc + [j] if eq else acc))
+			return out
+
+		for shape in canon_shapes(level):
+			st = State()
+			st.frames.append(Frame(None, {}))
+			st.aux["nk"] = 0
+			for s1, val, before in self.nested_build(st, shape):
+				s1.frames[0].locals[1] = val
+				s1.frames[0].locals[4] = ("buffer",)
+				hist = [["canonicalize_nested", [nested_text(shape)]]]
+				for s2, _ in self.call(s1, fn, [Ref(0, 1, ()), Ref(0, 4, ())]):
+					after_v = s2.frames[0].locals[1]
+					after = model_of(after_v)
+					n0 = len(self.violations)
+					states = []
+					for s3, same in self.nested_ueq(s2, before, after):
+						self.pairs += 1
+						if not same:
+							self.violation(s3, hist, "C10:canonicalization-keeps-the-entries-at-every-depth", "before %r, after %r (key variable, value)" % (before, after))
+						else:
+							states.append(s3)
+					for path, ob in objects_of(after_v):
+						nxt = []
+						for s3 in states:
+							for s4, bad in sorted_ok(s3, ob):
+								if bad:
+									self.violation(s4, hist, "C09:members-sorted-by-utf16-code-units-at-every-depth", "object at %s: %s; after: %r" % (path, bad, after))
+									continue
+								for s5, bad2 in index_ok(s4, ob):
+									if bad2:
+										self.violation(s5, hist, "C06+C10:index-canonical-and-queryable-after-canonicalization", "object at %s: %s" % (path, bad2))
+									else:
+										nxt.append(s5)
+						states = nxt
+					for s3 in states[:1]:
+						# idempotence (the run is deterministic given the decisions made so far)
+						for s4, _ in self.call(s3.fork(), fn, [Ref(0, 1, ()), Ref(0, 4, ())]):
+							if s4.frames[0].locals[1] != after_v and not s4.aux.get("tie_unmodelled"):
+								self.violation(s4, hist, "C10:canonicalization-is-idempotent", "second call: %r, first: %r" % (model_of(s4.frames[0].locals[1]), after))
+					for v in self.violations[n0:]:
+						v["shape"] = shape
+			if len(self.violations) >= 6:
+				return
 			if budget and time.time() - t0 > budget:
 				self.timed_out = True
 				return
@@ -2511,6 +2676,84 @@ def nested_text(v, ctr=None):
 	return "{" + ",".join(parts) + "}"
 
 
+def canon_shapes(level):
+	"""level 1: objects of <= 2 members with values from {t, {}, {k:t}, {k:t,k:f}, [{k:t,k:f}]} and arrays of
+	<= 2 items from {t, {k:t,k:f}}; level 2 adds: objects of <= 2 members with at least one value among
+	{k:{k:t,k:f}} (three levels) and {k:t,k:f,k:t}, and objects of 3 members with values from {t, {k:t}, {k:t,k:f}}"""
+	O2 = ("obj", ("t", "f"))
+	D = ["t", ("obj", ()), ("obj", ("t",)), O2, ("arr", (O2,))]
+	out = []
+	for k in range(3):
+		out += [("obj", x) for x in itertools.product(D, repeat=k)]
+	if level >= 2:
+		D2 = D + [("obj", (O2,)), ("obj", ("t", "f", "t"))]
+		out += [("obj", x) for k in range(1, 3) for x in itertools.product(D2, repeat=k) if any(c in D2[5:] for c in x)]
+		out += [("obj", x) for x in itertools.product(["t", ("obj", ("t",)), O2], repeat=3)]
+	for k in range(3):
+		out += [("arr", x) for x in itertools.product(["t", O2], repeat=k)]
+	return out
+
+
+def replay_canon(native, shape, keyvals):
+	"""canonicalize() on the REAL value parsed from text (keys from the solver's model, numbered in
+	construction order): the result must be unordered-equal to the input, sorted by UTF-16 key at
+	every depth, with every object's index answering for every key, and stable under a second call"""
+	import subprocess
+
+	ctr = {"k": 0}
+
+	def text(v):
+		if v in ("t", "f"):
+			return "true" if v == "t" else "false"
+		if v[0] == "arr":
+			return "[" + ",".join(text(c) for c in v[1]) + "]"
+		parts = []
+		for c in v[1]:
+			inner = text(c)
+			k = keyvals[ctr["k"]] if ctr["k"] < len(keyvals) else 0x41 + ctr["k"]
+			ctr["k"] += 1
+			parts.append("%s:%s" % (json.dumps(chr(k)), inner))
+		return "{" + ",".join(parts) + "}"
+
+	src = text(shape)
+	p = subprocess.run([native, "canon", src], stdout=subprocess.PIPE, stderr=subprocess.DEVNULL, timeout=60)
+	got = p.stdout.decode(errors="replace").strip()
+	why = None
+	try:
+		first, second, index = got.split("\t")
+		pairs = lambda t: json.loads(t, object_pairs_hook=lambda ps: ("obj", ps))
+
+		def norm(v):
+			if isinstance(v, tuple):
+				return ("obj", sorted(((k, norm(x)) for k, x in v[1]), key=repr))
+			if isinstance(v, list):
+				return [norm(x) for x in v]
+			return v
+
+		def sorted16(v):
+			if isinstance(v, tuple):
+				ks = [k.encode("utf-16-be") for k, _ in v[1]]
+				vs_ = [x for _, x in v[1]]
+				ties = all(not (ks[i] == ks[i + 1] and vs_[i] is True and vs_[i + 1] is False) for i in range(len(ks) - 1))
+				return ties and all(ks[i] <= ks[i + 1] for i in range(len(ks) - 1)) and all(sorted16(x) for _, x in v[1])
+			if isinstance(v, list):
+				return all(sorted16(x) for x in v)
+			return True
+
+		a, b = pairs(src), pairs(first)
+		if norm(a) != norm(b):
+			why = "content changed"
+		elif not sorted16(b):
+			why = "members not in UTF-16 order"
+		elif first != second:
+			why = "not idempotent"
+		elif index != "index-ok":
+			why = "stale index"
+	except Exception as e:  # noqa: BLE001
+		why = "unreadable output (%s)" % e
+	return dict(value=src, got=got, want="a canonical form of the input", why=why, reproduced=why is not None)
+
+
 def frag_shapes(level):
 	"""level 1: nesting depth <= 2, containers of <= 2 items/entries (115 values); level 2: depth <= 2
 	with <= 3 items/entries plus depth <= 3 chains (<= 1 item/entry per container)"""
@@ -2763,6 +3006,7 @@ def main():
 	ap.add_argument("--unordered", type=int, default=-1, help="C15 mode: pairs of objects of <= this many entries")
 	ap.add_argument("--mapped", type=int, default=-1, help="C11 mode: mapped lookups on objects of <= this many entries")
 	ap.add_argument("--unordered-nested", type=int, default=-1, help="C15 mode: Value::unordered_eq on pairs of nested values (level 1 or 2)")
+	ap.add_argument("--canon-nested", type=int, default=-1, help="C09/C10 mode: Value::canonicalize_with on nested values with symbolic keys (level 1 or 2)")
 	ap.add_argument("--fragments", type=int, default=-1, help="C11 mode: fragment lookup with a symbolic index / traversal / volume on nested values (level 1 or 2)")
 	ap.add_argument("--convert", type=int, default=-1, help="C11 mode: Vec<bool>::try_from_json_at on arrays of <= this many items")
 	ap.add_argument("--budget", type=float, default=0)
@@ -2776,6 +3020,35 @@ def main():
 		out["mir_dump_s"] = round(dt, 1)
 		ex = Explorer(a.repo, text)
 		out["functions_encoded"] = ex.prog.encoded()
+		if a.canon_nested >= 0:
+			ex.with_content = False
+			ex.explore_canon_nested(a.canon_nested, a.budget)
+			native = drvcheck.build_native(a.repo, a.build)
+			bad = []
+			nval = 0
+			for shape in canon_shapes(1):
+				for kv in ([0x62, 0x61, 0x10000, 0xFFFF, 0x61, 0x62, 0x63, 0x64], [0x61] * 8):
+					r = replay_canon(native, shape, kv)
+					nval += 1
+					if r["reproduced"]:
+						bad.append(r)
+			out["translator_validation"] = dict(values=nval, disagreements=bad[:3])
+			for v in ex.violations:
+				kv = list(v.get("keys") or [])
+				while len(kv) < 16:
+					kv.append(0x41 + len(kv))
+				v["native"] = replay_canon(native, v["shape"], kv)
+			if bad and not ex.violations:
+				raise MirError("translator validation failed: the real canonicalize() is not canonical on a value the interpreter passes: %s" % json.dumps(bad[0]))
+			out.update(level=a.canon_nested, pairs=ex.pairs, histories=ex.pairs, operations_run=ex.ops_run, mir_steps=ex.ip.stats["steps"], solver_queries=ex.keys.queries,
+			           solver_time_s=round(ex.keys.solver_time, 2), key_variables=len(ex.keys.vars), wall_s=round(time.time() - t0, 1), timed_out=ex.timed_out, violations=ex.violations)
+			out["ok"] = True
+			log("canonicalize on nested values, level %d: %d (value, key-relation) cases, %d solver queries, %.1fs%s, %d violation(s)" % (a.canon_nested, ex.pairs, ex.keys.queries, time.time() - t0, " TIMED OUT" if ex.timed_out else "", len(ex.violations)))
+			if a.out:
+				json.dump(out, open(a.out, "w"), indent=1, default=str)
+			else:
+				print(json.dumps(out, indent=1, default=str)[:4000])
+			return 0
 		if a.unordered_nested >= 0:
 			ex.with_content = False
 			ex.explore_unordered_nested(a.unordered_nested, a.budget)
